@@ -589,7 +589,7 @@ def run(tier, seed, replay=None):
         not_ex[rid] = 'table row has no declaration with this signature in the tree under check'
     for rid, sig in lax.items():
         build_notes.append('%s: declared signature differs from the table in cv / reference qualifiers only (%s); call site uses plain overload resolution' % (rid, sig))
-    if not replay:
+    if not replay and not os.environ.get('VERIF_NOMODEL'):
         cfg = 'MC_Layout16_run.cfg'
         open(os.path.join(wd, cfg), 'w').write(open(os.path.join(wd, 'MC_Layout16.cfg')).read().replace('BSub = TRUE', 'BSub = %s' % ('TRUE' if tier == 'quick' else 'FALSE')))
         r = tlc(wd, 'MC_Layout16', cfg, workers=8, timeout=1500)
